@@ -672,6 +672,8 @@ def run(chk):
 
     # ---- which reader fields are load-bearing: LoadRestart reads are; a Rst* constructor field is if anything else names it
     lib = chk.facts(core.library_units())
+    from rules import C03 as _c03
+    _c03.run_lostupdate(chk, lib, "C05")
     users = {}
     for f in lib.fns:
         for mr in f.get("mrefs", []):
